@@ -632,12 +632,162 @@ def d7(ctx, prog):
     return n
 
 
+def d9(ctx, prog):
+    """first-order preprocesses on a symbolic 3 x 2 batch (sa.symtensor): center = x - column mean, standardize = centred / column
+    standard deviation (population), CenterOn / StandardizeOn with given statistics use exactly those, with none the batch ones,
+    square = x^2, ToPower(p) = x^p - compared cell by cell with the definitions (normal forms, sign at generic points)."""
+    from .. import symtensor, ratfun
+    FO = 'scared.preprocesses.first_order'
+    np = symtensor.np
+    if np is None:
+        ctx.undecided('C18-D9', f'{FO}::formulas', 'numpy is not available to the analysis interpreter')
+        return 0
+    Q = ratfun.Q
+    N, S = 3, 2
+    x = np.empty((N, S), dtype=object)
+    for n_ in range(N):
+        for s_ in range(S):
+            x[n_, s_] = Q.sym(f'x{n_}{s_}')
+    m = np.array([Q.sym('m0'), Q.sym('m1')], dtype=object)
+    sd = np.array([Q.sym('d0'), Q.sym('d1')], dtype=object)
+    colmean = x.sum(axis=0) / N
+
+    def colstd():
+        v = ((x - colmean) * (x - colmean)).sum(axis=0) / N
+        return np.frompyfunc(lambda q: q.sqrt(), 1, 1)(v)
+
+    def nanmean(a, k):
+        arr, ax = a[0], k.get('axis', a[1] if len(a) > 1 else None)
+        return arr.sum(axis=ax) / (arr.shape[ax] if ax is not None else arr.size)
+
+    def nanstd(a, k):
+        arr, ax = a[0], k.get('axis', a[1] if len(a) > 1 else None)
+        if k.get('ddof', 0) != 0:
+            raise ratfun.Unknown('ddof')
+        n_ = arr.shape[ax] if ax is not None else arr.size
+        mu = arr.sum(axis=ax, keepdims=True) / n_ if ax is not None else arr.sum() / n_
+        v = ((arr - mu) * (arr - mu)).sum(axis=ax) / n_
+        return np.frompyfunc(lambda q: q.sqrt(), 1, 1)(v) if isinstance(v, np.ndarray) else v.sqrt()
+    summ = {'nanmean': nanmean, 'mean': nanmean, 'nanstd': nanstd, 'std': nanstd, 'result_type': lambda a, k: None, 'promote_types': lambda a, k: None,
+            'square': lambda a, k: a[0] * a[0], 'power': lambda a, k: a[0] ** a[1], 'dtype': lambda a, k: None}
+    pts = [{**{f'x{n_}{s_}': v for (n_, s_), v in zip([(a, b) for a in range(N) for b in range(S)], vals)}, 'm0': 2, 'm1': 5, 'd0': 3, 'd1': 7}
+           for vals in ((1, 4, 6, 2, 9, 7), (8, 1, 3, 5, 2, 11))]
+    cases = [('func', 'center', {}, x - colmean, 'x - column mean of the batch'),
+             ('func', 'standardize', {}, (x - colmean) / colstd(), '(x - column mean) / column standard deviation (population) of the batch'),
+             ('func', 'square', {}, x * x, 'x^2'),
+             ('cls', 'CenterOn', {'self.mean': m, 'self.precision': None}, x - m, 'x - the given mean'),
+             ('cls', 'CenterOn', {'self.mean': None, 'self.precision': None}, x - colmean, 'x - column mean of the batch (no mean given)'),
+             ('cls', 'StandardizeOn', {'self.mean': m, 'self.std': sd, 'self.precision': None}, (x - m) / sd, '(x - the given mean) / the given std'),
+             ('cls', 'StandardizeOn', {'self.mean': None, 'self.std': None, 'self.precision': None}, (x - colmean) / colstd(), 'batch statistics when none are given'),
+             ('cls', 'StandardizeOn', {'self.mean': m, 'self.std': None, 'self.precision': None}, None, 'given mean, batch std'),
+             ('cls', 'ToPower', {'self.power': 3, 'self.precision': None}, x * x * x, 'x^3 for power 3')]
+    # StandardizeOn(mean given, std None): std of the batch (about its own mean)
+    cases[7] = cases[7][:3] + ((x - m) / colstd(), cases[7][4])
+    n = 0
+    for kind, name, seeds, want, what in cases:
+        if kind == 'func':
+            f, ci = prog.need_func(FO, name), None
+        else:
+            ci = prog.need_class(FO, name)
+            f = ci.methods.get('__call__')
+        key = f'{f.key}::formula ({what})'
+        n += 1
+        try:
+            te = symtensor.TensorEval(prog, ci, dict(seeds))
+            te.summaries = dict(summ)
+            got = te.run(f, {[p_ for p_ in f.params if p_ != 'self'][0]: x.copy()})
+            if not isinstance(got, np.ndarray) or got.shape != want.shape:
+                ctx.fail('C18-D9', key, f'{name} returns an array of shape {getattr(got, "shape", None)}, expected {want.shape}', f.where())
+                continue
+            bad = None
+            for idx in np.ndindex(*want.shape):
+                ok, why = ratfun.same_function(Q.lift(got[idx]).rf, want[idx].rf, pts)
+                if not ok:
+                    bad = (idx, why)
+                    break
+            ctx.check(bad is None, 'C18-D9', key, f'{name}: entry {bad[0] if bad else ""} is not {what}: {bad[1] if bad else ""}', f'{name} = {what}, cell by cell', f.where())
+        except ratfun.Unknown as e:
+            ctx.undecided('C18-D9', key, f'formula not derivable: {e}', f.where())
+    return n
+
+
+def d8(ctx, prog):
+    """pair enumeration of the combination classes on symbolic traces (sa.symtensor): the class body is interpreted with a 2 x 5 array
+    of symbolic samples and an uninterpreted binary operation; for every trace the output row must list op(x[i], x[j]) for exactly
+    the documented pairs in the documented order - all i <= j of one frame, frame_1 x frame_2, j in i..i+distance, or point to
+    point - nothing uninitialised, nothing twice."""
+    from .. import symtensor, ratfun
+    HO = 'scared.preprocesses.high_order._base'
+    np = symtensor.np
+    if np is None:
+        ctx.undecided('C18-D8', f'{HO}::pair enumeration', 'numpy is not available to the analysis interpreter')
+        return 0
+    Q = ratfun.Q
+    N, S = 2, 5
+    tr = np.empty((N, S), dtype=object)
+    for n_ in range(N):
+        for s_ in range(S):
+            tr[n_, s_] = Q.sym(f't{n_}_{s_}')
+
+    def symname(q):
+        terms = list(q.rf.num.t.items())
+        if len(terms) == 1 and len(terms[0][0]) == 1 and terms[0][1] == 1 and q.rf.den == ratfun.Poly.const(1):
+            return terms[0][0][0][0]
+        raise ratfun.Unknown('operand of the operation is not a plain sample')
+
+    def op(args, kw):
+        a, b = args
+        return np.frompyfunc(lambda x, y: Q.sym(f'op({symname(x)},{symname(y)})'), 2, 1)(a, b)
+    cases = []
+    f1, f2 = [0, 2, 3], [1, 4]
+    cases.append(('_CombinationOfTwoFrames', 'one frame (all i <= j)', {'self.frame_1': f1, 'self.frame_2': f1, 'self._frame_2_was_none': True},
+                  [(a, b) for i, a in enumerate(f1) for b in f1[i:]]))
+    cases.append(('_CombinationOfTwoFrames', 'frame_1 x frame_2', {'self.frame_1': f1, 'self.frame_2': f2, 'self._frame_2_was_none': False},
+                  [(a, b) for a in f1 for b in f2]))
+    fr = [0, 1, 2, 3, 4]
+    for d in (1, 2):
+        cases.append(('_CombinationFrameOnDistance', f'distance {d}', {'self.frame_1': fr, 'self.frame_2': None, 'self.distance': d},
+                      [(a, fr[j]) for i, a in enumerate(fr) for j in range(i, min(i + d + 1, len(fr)))]))
+    cases.append(('_CombinationPointToPoint', 'point to point', {'self.frame_1': f1, 'self.frame_2': [4, 1, 0]}, list(zip(f1, [4, 1, 0]))))
+    n = 0
+    for cname, what, seeds, pairs in cases:
+        ci = prog.need_class(HO, cname)
+        f = ci.methods.get('__call__')
+        key = f'{ci.key}::pairs ({what})'
+        n += 1
+        try:
+            seeds = dict(seeds)
+            seeds['self.precision'] = None
+            te = symtensor.TensorEval(prog, ci, seeds)
+            te.summaries = {'_operation': op, 'result_type': lambda a, k: None, 'promote_types': lambda a, k: None}
+            got = te.run(f, {[p_ for p_ in f.params if p_ != 'self'][0]: tr.copy()})
+            if not isinstance(got, np.ndarray) or got.ndim != 2 or got.shape[0] != N:
+                ctx.fail('C18-D8', key, f'the result has shape {getattr(got, "shape", None)}: one row per trace expected', f.where())
+                continue
+            bad = None
+            for n_ in range(N):
+                want = [f'op(t{n_}_{a},t{n_}_{b})' for a, b in pairs]
+                row = []
+                for q in got[n_]:
+                    try:
+                        row.append(symname(q))
+                    except ratfun.Unknown:
+                        row.append('?')
+                if row != want:
+                    bad = f'trace {n_}: columns {row[:6]}{"..." if len(row) > 6 else ""} ({len(row)} columns), documented {want[:6]}{"..." if len(want) > 6 else ""} ({len(want)} columns)'
+                    break
+            ctx.check(bad is None, 'C18-D8', key, f'{bad}', f'{len(pairs)} pairs per trace, in the documented order, each row built from its own trace', f.where())
+        except ratfun.Unknown as e:
+            ctx.undecided('C18-D8', key, f'pair enumeration not evaluable: {e}', f.where())
+    return n
+
+
 def run(ctx, prog):
     ctx.rule('C18-D1', 'arithmetic on traces-derived values only after promotion (astype(join) / dtype=join / float partner computed with the join / FFT); helpers judged per call site')
     ctx.rule('C18-D2', 'the promotion dtype is numpy.result_type/promote_types of the traces dtype and the precision, never builtin max()')
     ctx.rule('C18-D3', 'no reduction / selection / transform along the trace axis outside the documented batch-statistics set')
     ctx.rule('C18-D4', 'decorator contract: 2-D in, 2-D out, same first dimension; metaclass wraps every __call__')
-    ctx.assume('pair order / duplication of the combination modes and the time-frequency formulas are value properties and not decided')
+    ctx.assume('the time-frequency formulas are value properties and not decided; pair order / duplication of the combination modes is decided on symbolic traces (C18-D8)')
     from .. import inline
     eps = [inline.inlined(prog, f) for f in entry_points(prog)]
     ctx.unit('entry_points', [f.key for f in eps])
@@ -649,6 +799,10 @@ def run(ctx, prog):
     ctx.floor('frame configuration stores', d5(ctx, prog), 3)
     ctx.rule('C18-D6', 'the switch between the one-frame pair set (i <= j) and frame_1 x frame_2 is the None-test of the caller\'s frame_2 argument, taken before defaulting')
     d6(ctx, prog)
+    ctx.rule('C18-D9', 'first-order preprocesses equal their formulas on a symbolic batch (center, standardize, CenterOn, StandardizeOn, square, ToPower)')
+    ctx.floor('first-order formulas compared', d9(ctx, prog), 8)
+    ctx.rule('C18-D8', 'pair enumeration on symbolic traces: each combination class lists exactly the documented pairs in the documented order, row by row')
+    ctx.floor('pair enumeration cases', d8(ctx, prog), 5)
     ctx.rule('C18-D7', 'operand order: the combination operation receives (point of frame_1, point of frame_2) in every mode')
     ctx.floor('combination operation call sites', d7(ctx, prog), 3)
     ctx.floor('preprocess entry points', len(eps), 20)
